@@ -59,6 +59,14 @@ impl SpeechGenerator {
         self.next
     }
 
+    /// Read-only view of the (spectrum, log-F0, low-pass) parameter trajectories this generator will render.
+    ///
+    /// Verification hook; compiled only with `--cfg jbonsai_verif`.
+    #[cfg(jbonsai_verif)]
+    pub fn verif_trajectories(&self) -> (&[Vec<f64>], &[Vec<f64>], &[Vec<f64>]) {
+        (&self.spectrum, &self.lf0, &self.lpf)
+    }
+
     /// Generate speech of length `fperiod` in `speech`.
     ///
     /// The length of `speech` must be longer than `fperiod`, otherwise, this function will panic.
